@@ -390,7 +390,8 @@ impl QosPolicies {
     // check Ownership:
     // offered kind == requested kind
     if let (Some(off), Some(req)) = (self.ownership, other.ownership) {
-      if off != req {
+      // Only the kind is subject to matching, not the ownership strength.
+      if std::mem::discriminant(&off) != std::mem::discriminant(&req) {
         return Some(QosPolicyId::Ownership);
       }
     }
